@@ -280,9 +280,26 @@ def _sp_init(ck, prog):
     ck.shape(t in forms or "or" in t, "SequenceParameters.__init__: emptiness test in a recognised form", f.loc(rej))
     ck.ob("DT", construct, t in forms, expected="raise when both sequence and sequenceFile are empty", found=unparse(rej.test), slot="empty-rejected", where=f.loc(rej))
     # string branch: Sequence(sequence, validateSeq=True)
+    def _conv_of_param(a):
+        # str(sequence) / repr(sequence) / '%s' % sequence / f'{sequence}' / '{}'.format(sequence): a string whatever the caller passed
+        if isinstance(a, ast.Call) and getattr(a.func, "id", "") in ("str", "repr", "format") and len(a.args) >= 1 and isinstance(a.args[0], ast.Name) and a.args[0].id == "sequence":
+            return True
+        if isinstance(a, ast.Call) and isinstance(a.func, ast.Attribute) and a.func.attr == "format" and isinstance(a.func.value, ast.Constant) \
+                and any(isinstance(x, ast.Name) and x.id == "sequence" for x in a.args):
+            return True
+        if isinstance(a, ast.BinOp) and isinstance(a.op, ast.Mod) and isinstance(a.left, ast.Constant) and isinstance(a.left.value, str) \
+                and any(isinstance(x, ast.Name) and x.id == "sequence" for x in ast.walk(a.right)):
+            return True
+        if isinstance(a, ast.JoinedStr) and any(isinstance(x, ast.Name) and x.id == "sequence" for x in ast.walk(a)):
+            return True
+        return False
     ctor = [n for n in ast.walk(f.node) if isinstance(n, ast.Call) and prog.class_of_ctor(f.mod, n) == "Sequence" and n.args
-            and isinstance(n.args[0], ast.Name) and n.args[0].id == "sequence"]
+            and ((isinstance(n.args[0], ast.Name) and n.args[0].id == "sequence") or _conv_of_param(n.args[0]))]
     ck.shape(len(ctor) == 1, "SequenceParameters.__init__: one Sequence(sequence, ...) construction", f.loc())
+    if _conv_of_param(ctor[0].args[0]):
+        ck.ob("ORDER-typecheck", construct, False, expected="the object the caller passed reaches Sequence(...), whose type check rejects anything that is not a string",
+              found=unparse(ctor[0])[:80], slot="converted-at-the-call", where=f.loc(ctor[0]),
+              note="after str(x) every object is a string: float('nan') becomes the sequence 'NAN', any object whose text happens to be made of residue letters is accepted")
     # the caller's object itself must reach the constructor (whose first step is the type check): no rebinding of the parameter on the way
     reb = [n for n in ast.walk(f.node) if isinstance(n, (ast.Assign, ast.AugAssign)) and any(isinstance(x, ast.Name) and x.id == "sequence" and isinstance(x.ctx, ast.Store)
                                                                                             for t in (n.targets if isinstance(n, ast.Assign) else [n.target]) for x in ast.walk(t))]
